@@ -250,7 +250,7 @@ def rule_sizes(chk: Check, model, rid: str):
     if len(asserts) == 1:
         a = asserts[0]
         parts = a.term[1] if a.term[0] == "or" else (a.term,)
-        cmpp = [p for p in parts if p[0] in ("lt0", "le0")]
+        cmpp = [p for p in parts if p[0] in ("lt0", "le0") and any(x[0] == "call" and x[1] == "max" for x in T.walk(p))]
         maxes = [x for p in cmpp for x in T.walk(p) if x[0] == "call" and x[1] == "max"]
         if len(cmpp) == 1 and len(maxes) == 2:
             user = [x for x in maxes if not mentions(x, "get_buffer_sizes")]
